@@ -169,14 +169,26 @@ func genWarcleg(r *Rng, i int, tier string) string {
 		}
 		sp.Resources = append(sp.Resources, ResSpec{Path: path, Hits: hits})
 	}
-	// twins: identical payload under another URL (local dedupe writes a revisit record)
-	for k := 1; k < nres; k++ {
-		if r.Chance(15) {
-			src := sp.Resources[r.Intn(k)]
-			if len(src.Hits) == 1 && src.Hits[0].Kind == "resp" && len(sp.Resources[k].Hits) == 1 && sp.Resources[k].Hits[0].Kind == "resp" {
-				h := src.Hits[0]
-				h.Status = sp.Resources[k].Hits[0].Status
-				sp.Resources[k].Hits[0] = h
+	// twins: identical payload (>= the dedupe threshold) under two URLs: with local dedupe the
+	// later one is stored as a revisit record, without it as two full responses
+	if r.Chance(65) {
+		var singles []int
+		for k, rs := range sp.Resources {
+			if len(rs.Hits) == 1 && rs.Hits[0].Kind == "resp" && rs.Hits[0].Status != 204 && rs.Hits[0].Status != 304 && !strings.HasPrefix(rs.Hits[0].Body, "rnd:") {
+				singles = append(singles, k)
+			}
+		}
+		for p := 1 + r.Intn(2); p > 0 && len(singles) >= 2; p-- {
+			i := r.Intn(len(singles))
+			a := singles[i]
+			singles = append(singles[:i], singles[i+1:]...)
+			j := r.Intn(len(singles))
+			b := singles[j]
+			singles = append(singles[:j], singles[j+1:]...)
+			shared := litSpec(fmt.Sprintf("twin payload %d ", r.Intn(1000000))) + "+" + runSpec(byte('A'+r.Intn(26)), wlPick(r, []int{2048, 5000, 70000}))
+			for _, k := range []int{a, b} {
+				sp.Resources[k].Hits[0].Body = shared
+				sp.Resources[k].Hits[0].Gzip = false
 			}
 		}
 	}
@@ -205,7 +217,19 @@ func genWarcleg(r *Rng, i int, tier string) string {
 	return in
 }
 
+// runChild runs one case in its own process.  A child that produced no result at all (killed by
+// the watchdog, crashed at start-up under machine load) is run once more; what is retried is the
+// run, never a result.
 func runChild(in string) *wlOutcome {
+	o := runChildOnce(in)
+	if o.res == nil {
+		note("warcleg: child gave no result (" + o.err + "), running it once more")
+		o = runChildOnce(in)
+	}
+	return o
+}
+
+func runChildOnce(in string) *wlOutcome {
 	var sp ChildSpec
 	if err := json.Unmarshal([]byte(in), &sp); err != nil {
 		return &wlOutcome{err: "bad input: " + err.Error()}
@@ -385,7 +409,7 @@ func execWarcleg(in string) Result {
 		// the retried / given-up exchanges nobody waits for (see known-findings.txt)
 		unawaited := false
 		for i, h := range it.Hits {
-			if (h.Kind == "resp" || h.Kind == "badgzip") && (i < len(it.Hits)-1 || it.Status == "Failed") {
+			if h.Kind == "resp" && (i < len(it.Hits)-1 || it.Status == "Failed") {
 				unawaited = true
 			}
 		}
@@ -500,6 +524,5 @@ func shrinkWarcleg(in string) []string {
 	s = sp
 	s.OnDisk, s.Dedupe, s.WarcSize = false, false, 100
 	emit(s)
-	_ = strings.TrimSpace
 	return out
 }
